@@ -32,7 +32,8 @@ ASSUMPTIONS = [
     "the aggregate is judged against (1/rho)*ln(sum(exp(rho*s))) evaluated in numpy.longdouble (64-bit mantissa); the shifted "
     "form is cross-checked against the textbook un-shifted form whenever |rho*s| < 5000 (harness error if they disagree)",
     "tolerances: value 16*eps*(|extremum| + (n+2)/rho) (rounding of the shift, of rho*diff and of the log), weights 16*eps*(n+1), "
-    "bracket with the same slack; unit conversions add 8*eps*(|a*x|+|b|) and are verified separately on the component input",
+    "bracket with the same slack; the reference is built from the component's own input vector, the unit conversion of the connection is "
+    "verified separately (8 eps for linear factors, 1e-12 relative for the affine degC->degF conversion)",
     "rho > 0; rho is a python float or int; inputs are finite doubles",
     "jax: XLA exp/log trusted to 4 eps; jax.grad must equal the softmax weights although jnp.max splits its own gradient between ties",
     "KSfunction.derivatives documents its second return value as dKS_drho: it is judged against the exact d/drho of the value "
